@@ -109,9 +109,10 @@ class QsRun:
                 self._inject(("connect", st[1]))
         elif op == "disconnect":
             name = st[1]
-            blocked = name in model.pulls
-            holding = any(j.state == "h" and j.holder == name for j in model.jobs.values())
-            waiting = name in model.waits
+            cid = sim.cid(name)
+            blocked = cid in model.pulls
+            holding = any(j.state == "h" and j.holder == cid for j in model.jobs.values())
+            waiting = cid in model.waits
             ok = sim.disconnect(name)
             if ok:
                 self._inject(("eof", name))
@@ -130,17 +131,14 @@ class QsRun:
             sim.yield_gen()
             ok = True
         elif op == "run":
-            sim.quiesce()
-            self._end_quantum()
-            model.at_quiescence()
+            self._quiesce()
             ok = True
         elif op == "adv":
-            sim.quiesce()
-            self._end_quantum()
-            model.at_quiescence()
+            self._quiesce()
             n = sim.advance(st[1])
             self.fault("timer-fired", n)
             self._end_quantum()
+            self._raise_pending()
             model.at_quiescence()
             ok = True
         elif op == "tick":
@@ -151,32 +149,32 @@ class QsRun:
             ok = True
         elif op == "jump":
             sim.jump(st[1])
+            model.note_jump(st[1])
             self.fault("clock-jump")
             self._inject(("jump", st[1]))
             ok = True
         elif op == "restart":
-            sim.quiesce()
-            self._end_quantum()
-            model.at_quiescence()
+            self._quiesce()
             live = sim.restart()
             self.fault("restart")
             for name in live:  # a restarted server's clients reconnect
                 sim.connect(name)
-            sim.quiesce()
-            self._end_quantum()
-            model.at_quiescence()
+            self._quiesce()
             ok = True
         else:
             ok = self.step_extra(st)
+        if sim.violation is not None:
+            raise sim.violation
         return ok
 
     def step_extra(self, st):
         raise HarnessError(f"unknown step {st!r}")
 
     def do(self, st):
+        self.steps.append(st)  # recorded before execution: a violating step is part of the script
         ok = self.step(st)
-        if ok:
-            self.steps.append(st)
+        if not ok:
+            self.steps.pop()
         return ok
 
     # ---- generation -----------------------------------------------------------
@@ -220,7 +218,7 @@ class QsRun:
 
     def _gen_inflight_fault(self):
         c, rng, model = self.config, self.rng, self.model
-        blocked = [n for n in model.pulls if self.sim.is_live(n)]
+        blocked = [n for n in c.clients + c.workers if self.sim.is_live(n) and self.sim.cid(n) in model.pulls]
         j = next(iter(sorted(model.inflight_possible, key=lambda j: j.serial)))
         opts = ["add", "tick"]
         if blocked:
@@ -289,10 +287,11 @@ class QsRun:
 
     def g_finish(self, sendable, live, deadc):
         rng, model = self.rng, self.model
-        holders = [n for n in sendable if any(j.holder == n for j in model.jobs.values())]
+        cid = self.sim.cid
+        holders = [n for n in sendable if any(j.holder == cid(n) for j in model.jobs.values())]
         if holders and rng.random() < 0.8:
             name = rng.choice(holders)
-            jid = rng.choice(sorted([j.jobid for j in model.jobs.values() if j.holder == name], key=str))
+            jid = rng.choice(sorted([j.jobid for j in model.jobs.values() if j.holder == cid(name)], key=str))
         else:
             name = rng.choice(sendable)
             jid = self._known_id()
@@ -321,10 +320,11 @@ class QsRun:
 
     def g_setinfo(self, sendable, live, deadc):
         rng, model = self.rng, self.model
-        holders = [n for n in sendable if any(j.holder == n for j in model.jobs.values())]
+        cid = self.sim.cid
+        holders = [n for n in sendable if any(j.holder == cid(n) for j in model.jobs.values())]
         if holders and rng.random() < 0.8:
             name = rng.choice(holders)
-            jid = rng.choice(sorted([j.jobid for j in model.jobs.values() if j.holder == name], key=str))
+            jid = rng.choice(sorted([j.jobid for j in model.jobs.values() if j.holder == cid(name)], key=str))
         else:
             name = rng.choice(sendable)
             jid = self._known_id()
@@ -338,8 +338,9 @@ class QsRun:
 
     def g_disconnect(self, sendable, live, deadc):
         rng, model = self.rng, self.model
-        hot = [n for n in live if n in model.pulls or n in model.waits
-               or any(j.holder == n for j in model.jobs.values())]
+        cid = self.sim.cid
+        hot = [n for n in live if cid(n) in model.pulls or cid(n) in model.waits
+               or any(j.holder == cid(n) for j in model.jobs.values())]
         if hot and rng.random() < 0.75:
             return ["disconnect", rng.choice(sorted(hot))]
         return ["disconnect", rng.choice(live)]
@@ -387,19 +388,19 @@ class QsRun:
         stats) and the drain: fresh workers pull on all channels until the model's queued
         set is empty; every unfinished, unheld job must come out exactly once."""
         sim, model = self.sim, self.model
-        sim.quiesce()
-        self._end_quantum()
-        model.at_quiescence()
+        self._quiesce()
         if probe:
             sim.connect("probe")
             sim.quiesce()
             for jid in sorted(model.jobs, key=str):
                 sim.send("probe", "qinfo", {"jobid": jid})
                 sim.quiesce()
+                self._raise_pending()
                 if not sim.can_send("probe"):
                     raise Violation("R-error", f"qinfo({jid!r}) got no answer")
             sim.send("probe", "getstats", {})
             sim.quiesce()
+            self._raise_pending()
             model.at_quiescence()
         if drain:
             model.draining = True
@@ -410,11 +411,22 @@ class QsRun:
                 budget -= 1
                 sim.send("drain", "qpull", {"channels": []})
                 sim.quiesce()
+                self._raise_pending()
                 model.at_quiescence()
             left = model.unheld()
             if left:
                 raise Violation("I-drain", f"{len(left)} unfinished job(s) never came out of the drain: "
                                 f"{[j.tag() for j in left]}")
+
+    def _quiesce(self):
+        self.sim.quiesce()
+        self._end_quantum()
+        self._raise_pending()
+        self.model.at_quiescence()
+
+    def _raise_pending(self):
+        if self.sim.violation is not None:
+            raise self.sim.violation
 
     def close(self):
         if not self.closed:
